@@ -39,6 +39,8 @@ DECIDING = {
     "action_async_callable": "async callable",
     "action_raising_callable": "callable raising Exception (fallback to cancellation)",
     "action_raising_base_callable": "callable raising BaseException (fallback to cancellation)",
+    "action_raising_async_callable": "asynchronous callable that raises while awaited (fallback to cancellation)",
+    "registrations_made_from_a_component": "programs whose registrations are made from a component's start() (shortcuts through the component context)",
     "service_state_at_teardown_waiting": "task still running when its finalizer starts",
     "service_state_at_teardown_over": "task already finished when teardown reaches it",
     "service_own_teardown_checked": "task's own context torn down before teardown proceeds",
